@@ -174,3 +174,38 @@ def deribit_world(frozen_bar=1):
         ("deribit.deposit[part]", "deribit.buy[C1,6,market]", "deribit.buy[P1,1,market]"),
     )
     return World("deribit", build, roots, {"deribit.data": data, "prices": prices})
+
+
+# ---------------------------------------------------------------------------------------------------------
+def gmx1_world(frozen_bar=1, usdg_class=None):
+    from . import gmx
+
+    data = gmx.v1_frame(3, usdg_class)
+    prices = gmx.v1_prices(data)
+
+    def build():
+        m = gmx.make_v1(data)
+        ctx = Ctx("gmx1", prices, USD, [gmx.Gmx1Adapter(m, data)], [(gmx.WETH, 3), (gmx.WAVAX, 200), (gmx.USDC, 5000)], data.index)
+        ctx.begin_bar(frozen_bar)
+        return ctx
+
+    roots = ((), ("gmx1.buy_glp[WETH,part]",), ("gmx1.buy_glp[WETH,part]", "gmx1.buy_glp[WAVAX,part]"))
+    return World("gmx1", build, roots, {"gmx1.data": data, "prices": prices})
+
+
+def gmx2_world(frozen_bar=1, kind="mild", impact="small"):
+    from . import gmx
+
+    data = gmx.v2_frame(3, kind, impact)
+    prices = gmx.v2_prices(data, gmx.make_v2(data))
+
+    def build():
+        m = gmx.make_v2(data)
+        ctx = Ctx(f"gmx2({kind},{impact})", prices, USD, [gmx.Gmx2Adapter(m, data)], [(gmx.V2_LONG, 4), (gmx.V2_SHORT, 9000)], data.index)
+        ctx.begin_bar(frozen_bar)
+        return ctx
+
+    roots = ((), ("gmx2.deposit[part,part]",), ("gmx2.deposit[part,0]", "gmx2.deposit[0,part]"))
+    w = World(f"gmx2({kind},{impact})", build, roots, {"gmx2.data": data, "prices": prices})
+    w.allowed_gain = lambda ctx, op: ctx.adapters[0].allowed_gain(ctx, op)
+    return w
